@@ -104,8 +104,10 @@ def gen_case(seed, tier='quick'):
             # same bytes in a process that has never loaded anything
             op['pristine_check'] = True
         if faulty and rng.random() < 0.5:
-            k = rng.choice(['eio', 'eio', 'short', 'interrupt'])
-            if k == 'short':
+            k = rng.choice(['eio', 'eio', 'short', 'interrupt', 'open'])
+            if k == 'open':
+                op['fault'] = {'kind': 'open'}
+            elif k == 'short':
                 op['fault'] = {'kind': 'short', 'seed': rng.randrange(1 << 30)}
             else:
                 op['fault'] = {'kind': k, 'frac': round(rng.random(), 3)}
@@ -337,9 +339,11 @@ def _run(case, fs):
         ignore = [x for x in op['ignore']]
         path = f'/simfs/book{b}.xlsx'
         fault = op.get('fault')
-        rf, short, at = None, None, None
+        rf, short, at, of = None, None, None, None
         if fault is not None:
-            if fault['kind'] == 'short':
+            if fault['kind'] == 'open':
+                of = {'at': 1}
+            elif fault['kind'] == 'short':
                 short = fault['seed']
             else:
                 # measure a fault-free load of the same file first
@@ -354,7 +358,7 @@ def _run(case, fs):
                 else:
                     at = max(1, int(st.steps * fault['frac']))
         fs.reset_op(bufsize=op.get('bufsize'), read_fault=rf,
-                    short_seed=short)
+                    short_seed=short, open_fault=of)
         if op.get('reuse_compiler') and last_mc[0] is not None:
             mc = last_mc[0]
             bump('probe:compiler_object_reused')
@@ -432,7 +436,8 @@ def _run(case, fs):
             viol = {'tag': 'openpyxl-patch-not-restored',
                     'detail': {'op': seq, 'faults': fired, 'outcome': out}}
             break
-        hard = [f for f in fired if f in ('read_eio', 'interrupt_in_load')]
+        hard = [f for f in fired if f in ('read_eio', 'interrupt_in_load',
+                                          'open_error')]
         if retried:
             # the retry itself ran fault-free on an archive that was read
             # completely: it must be right
